@@ -190,7 +190,7 @@ impl Property for C11 {
         "fault_enumeration"
     }
     fn rule(&self) -> String {
-        "trees produced by short generated histories (fresh and cached feasibility states, total and partial, contradicting predicates) x operation in {infeasible_elimination, compose<true>(schema or tree), tree +- tree} x fault plans injected at Polytope::solve_linprog through the cfg(affinitree_verif) hook: when the fault-free run makes N <= 40 LP calls EVERY single position x kind in {Error, Unbounded, perturbed witness (violates one row by 1e-5), far-off witness} is executed (exhaustive for that case), otherwise 160 sampled single faults; plus generated multi-fault plans (2-5 positions, mixed kinds). Per plan: no panic, well-formed, function equal to the unpruned reference (all full-dimensional cells + boundary inputs under the thin rule), sound caches (C05 oracle), and the surviving node set is a superset of the fault-free run's (node count for compose/arith). Non-trivial = at least one injected fault changed the answer the library saw and (for elimination) the fault-free run pruned a node; distinct = distinct serialised cases".into()
+        "trees produced by short generated histories (fresh and cached feasibility states, total and partial, contradicting predicates) x operation in {infeasible_elimination, compose<true>(schema or tree), tree +- tree} x fault plans injected at Polytope::solve_linprog through the cfg(affinitree_verif) hook: when the fault-free run makes N <= 40 LP calls EVERY single position x kind in {Error, Unbounded, perturbed witness (violates one row by 1e-5), far-off witness} is executed (exhaustive for that case), otherwise 160 sampled single faults; plus generated multi-fault plans (2-5 positions, mixed kinds). Per plan: no panic, well-formed, function equal to the unpruned reference (all full-dimensional cells + boundary inputs under the thin rule), sound caches (C05 oracle), and every node that vanished under the plan is audited for soundness (its region contains no ball of radius 1e-6: 'the only permitted effect is less pruning' is judged per removal, not by comparing survivor sets). Non-trivial = at least one injected fault changed the answer the library saw and (for elimination) the fault-free run pruned a node; distinct = distinct serialised cases".into()
     }
     fn assumptions(&self) -> Vec<String> {
         vec![
